@@ -230,4 +230,22 @@ theorem dk_of_model (mat D : Mat) (r n : ℕ) (hR : Rect mat r n) (hr : 0 < r)
   rw [h1, hD, h2]
   exact dk_diagF _ hchain r n k (by omega) (by omega)
 
+/-- the input matrix is unimodularly equivalent to the diagonal matrix of the chain -/
+theorem model_uequiv (mat D : Mat) (r n : ℕ) (hR : Rect mat r n) (hr : 0 < r)
+    (h : diagonalize mat = some D) :
+    UEquiv (toMatrix mat r n) (diagL (chainPass (min r n) (diagonal D (min r n))) r n) := by
+  obtain ⟨hdiag, hU⟩ := diagonalize_diagonal' mat D r n
+    (fun M => UEquiv (toMatrix mat r n) (toMatrix M r n)) (closed_uequiv r n _) hR hr
+    (UEquiv.refl _) h
+  have hlen0 := diagonal_length D (min r n)
+  have hD : toMatrix D r n = diagL (diagonal D (min r n)) r n := by
+    ext a b
+    simp only [toMatrix, diagL, diagF]
+    by_cases hab : a.val = b.val
+    · rw [if_pos hab, diagonal_getD D _ a.val (by have := a.isLt; have := b.isLt; omega), ← hab]
+    · rw [if_neg hab]; exact hdiag a.val b.val a.isLt b.isLt hab
+  rw [hD] at hU
+  exact hU.trans (chainPass_uequiv r n (min r n) (diagonal D (min r n)) (by rw [hlen0]; omega)
+    (by rw [hlen0]; omega))
+
 end DSymVerif.Inv
